@@ -133,6 +133,24 @@ REG["C11"] = {
     "not_decided": ["that the written text is *parsed back* as that kind (ExpectationMaker::parse is regex-based: a plain line ending in ` (glob)` etc. is C09's concern)"],
 }
 
+REG["C06"] = {
+    "units": ["markdown"],
+    "scope": "PARTIAL — the tokenizer: (1) extract_code_block_start(line) equals the spec `cbs`: exactly ``` or a run of >= 3 backticks followed by an info string, split at the first `{` "
+             "into (backticks, language, config); all str slices are proved to be taken at char boundaries (Rust's panic condition is the helper's precondition); "
+             "(2) MarkdownIterator::next: a call consumes a prefix of the remaining lines, counts them, ends only at the end of input, and the token it returns accounts for exactly the "
+             "consumed lines (`token_ok`: Line / DocumentConfig / VerbatimCodeBlock / TestCodeBlock with line numbers, comment vs code lines, inline config, and the block ends at the FIRST later "
+             "line that starts at column 0 with the opening backtick run); (3) the expression of MarkdownParser::parse that takes the last code line is safe for a block without lines.",
+    "assumptions": [
+        "std::str::Lines modelled by an opaque iterator with a `remaining()` sequence and the usual next() law; str helpers (__str_eq, starts_with/strip_* with exact Seq<char> specs, "
+        "__str_slice with the char-boundary precondition, __str_len, __char_len_utf8) are trusted wrappers of the std functions",
+        "str::trim / trim_end are uninterpreted (the language is the info string with trailing whitespace removed, whatever std calls whitespace)",
+        "`while let` over chars(): termination of extract_code_block_start unproved",
+        "the number of lines fits usize (precondition of next())",
+    ],
+    "not_decided": ["MarkdownParser::parse itself: titles (regex \\p{L}+, HEADER_LINE), LineParser's body grammar and exit-code regex, YAML front-matter / inline config parsing (serde_yaml), "
+                    "the 1-based line number of the `$` line (LineParser)", "CRLF handling of str::lines", "that language tokens are compared as written (`languages.contains`)"],
+}
+
 VX_NOTE = ("Trusted: Verus/Z3; the extractor's rewrite rules (DESIGN §4.2, each firing is logged in evidence.rewrites_fired); "
            "prelude.rs shims and assume_specifications (mechanically scanned into evidence.trusted_base); "
            "machine integers are NOT idealised (usize overflow is an obligation).")
@@ -169,9 +187,12 @@ LEVELS["C04"] = {"category": "proof", "technique": "Verus postconditions on extr
 LEVELS["C11"] = {"category": "proof", "technique": "Verus: encoder/decoder functions proved equal to recursive specs + round-trip and printability lemmas over those specs",
     "text": "Unbounded proof over all byte strings: the real encoder and decoders equal their spec functions, and decode(encode(bs)) == bs, all output chars printable.",
     "design_ref": "DESIGN.md §5 C11", "note": VX_NOTE}
+LEVELS["C06"] = {"category": "proof", "technique": "Verus postconditions on extracted extract_code_block_start and MarkdownIterator::next (token conservation), @expr on MarkdownParser::parse",
+    "text": "Unbounded proof over all lines / all documents (as sequences of lines) of the Markdown tokenizer: what is a fence, where a block ends, that every consumed line is in the returned token "
+            "with its number, that all str slicing is on char boundaries. Partial: the parser on top of the tokenizer (titles, body grammar, YAML) is out of reach and stated as not decided.",
+    "design_ref": "DESIGN.md §5 C06", "note": VX_NOTE}
 
 NOT_APPLICABLE = [
-    {"property_id": "C06", "reason": "being built (markdown tokenizer, partial) — not yet claimed"},
     {"property_id": "C07", "reason": "Cram parsing: reachable only by assuming contracts for the regex-based line classification; lowest assurance per hour, not built (DESIGN §10)"},
     {"property_id": "C08", "reason": "being built (quantifier round trip, partial) — not yet claimed"},
     {"property_id": "C09", "reason": "composition generate->parse->validate through format!-heavy rendering and the regex crate; contracts on the pieces in reach do not compose without a verified parser (DESIGN §10)"},
